@@ -1079,6 +1079,20 @@ private:
       std::unique_lock<std::shared_mutex> wl(_sessionRwMutex);
       _sessions.clear();
     }
+    // The sessions' fd tags hold raw Session pointers: drop them with the
+    // sessions, otherwise a later start() finds a stale tag under a reused fd
+    // number and dispatches to a freed Session (heap-use-after-free).
+    for (auto it = _fdTags.begin(); it != _fdTags.end();)
+    {
+      if (!it->second->isListener)
+      {
+        it = _fdTags.erase(it);
+      }
+      else
+      {
+        ++it;
+      }
+    }
 
     // Close listeners
     std::vector<Listener *> listenersToClose;
